@@ -43,8 +43,8 @@ Definition reshape_sp_code (S : sparse V) (x : pyshp) (oldz : option (list Z)) :
 
 (* sptensor.squeeze as the property demands it on EVERY shape: like tensor.squeeze after 649a706 a mode of size 0 is no singleton
    and is kept (a sparse tensor with a size-0 mode comes out of tensor.to_sptensor(); the constructor refuses such a shape when
-   it validates).  On positive sizes this is squeeze_sp of Model/C07Ops.v; pyttb's sptensor.squeeze still tests `shape > 1`
-   (squeeze_sp_impl of Model/C07Impl.v): open finding N-C07-7 *)
+   it validates).  On positive sizes this is squeeze_sp of Model/C07Ops.v; pyttb's sptensor.squeeze up to /repo 6e4bb42 tests
+   `shape > 1` (squeeze_sp_impl of Model/C07Impl.v: finding N-C07-7), the repaired text `shape != 1` (squeeze_sp_impl_ne of Model/C07Gen4.v) *)
 Definition squeeze_sp_any (S : sparse V) : sq_res (V:=V) (sparse V) :=
   let s := sshape S in
   if forallb (fun d => negb (Nat.eqb d 1)) s then SqT S
